@@ -141,7 +141,7 @@ class Ids:
 
 
 class ApiRig:
-    def __init__(self, version: int, nbrs: list[dict] | None = None, ack: bool = True) -> None:
+    def __init__(self, version: int, nbrs: list[dict] | None = None, ack: bool = True, max_command: int | None = None) -> None:
         self.specs = nbrs if nbrs is not None else DEFAULT_NBRS
         self.version = version
         RIB._cache.clear()
@@ -165,6 +165,9 @@ class ApiRig:
         p._ack[SERVICE] = ack
         p._restart[SERVICE] = False
         p.respawn_number = 0
+        if max_command is not None:
+            # boundary tests at small sizes: shadow the class constant on this instance only
+            p.MAX_COMMAND_SIZE = max_command
         p._update_fds()
         self.ids = Ids()
         self.commands: list[str] = []
